@@ -3,5 +3,6 @@ package main
 // one blank import per property scenario
 import (
 	_ "github.com/saucelabs/forwarder/verifharness/c01"
+	_ "github.com/saucelabs/forwarder/verifharness/c02"
 	_ "github.com/saucelabs/forwarder/verifharness/c16"
 )
